@@ -24,3 +24,12 @@ import LyModel.Props.C17L1
 #print axioms LyModel.Props.C17L1.l1_refines_l2
 #print axioms LyModel.Props.C17L1.l1_first_free_in_bounds
 #print axioms LyModel.Props.C17L1.l1_fuel_sufficient
+-- audit (vacuity / weakness review): scope theorem for `ht_refines_spec`, witness states used by the non-vacuity examples
+#print axioms LyModel.Props.C17.ht_refines_spec_vacuous_for_dict_callbacks
+#print axioms LyModel.Props.C17.auVe_equiv
+#print axioms LyModel.Props.C17.auNew_rel
+#print axioms LyModel.Props.C17.auH_rel
+#print axioms LyModel.Props.C17.auH16_rel
+#print axioms LyModel.Props.C17.auD5_inv
+#print axioms LyModel.Props.C17.auD16_inv
+#print axioms LyModel.Props.C17L1.auH1_inv
